@@ -481,6 +481,20 @@ def r10_no_judgement_on_the_destination(ctx):
            "%d uses of octets()/segments(), all to encode addresses; no address-class predicate" % n if not bad else
            "%s decides on %s: destinations in that class are refused or treated differently although they were requested like any other (an IPv4 address ending in .255 is not a broadcast address unless the network is a /24)"
            % (ctx.P.owner(bad[0][0]), bad[0][2]))
+    # ... and names: the resolver decides what is a resolvable name.  Every refusal of resolve_host_with_cache comes after a
+    # resolver has been asked (lookup_ip / lookup_host); a syntax filter in front of it (letters first, no underscore, ...) turns
+    # away names that exist — `0.pool.ntp.org`, `163.com`
+    rb = ctx.body("R07.10", "util::dns_cache::resolve_host_with_cache::{closure#0}")
+    if rb is not None:
+        cfg = ctx.cfg(rb)
+        asks = calls_norm(rb, "::lookup_ip", "net::lookup_host", "::lookup")
+        if ctx.floor("R07.10", "resolver calls in resolve_host_with_cache", len(asks), 1):
+            errs = [bi for kind, bi, si, rv in rb.defs().get(0, []) if not (kind == "assign" and rv["r"] == "aggregate" and rv["kind"].get("variant") == "Ok")
+                    and not (kind == "assign" and rv["r"] == "use")]
+            ok, p = cfg.must_pass([0], errs, via_blocks=[c.bb for c in asks])
+            ctx.ob("R07.10", "resolve_host_with_cache:refuses-only-what-the-resolver-refused", ok, asks[0].site, "no error return is reachable without having asked a resolver" if ok else
+                   "resolve_host_with_cache can refuse a name without asking any resolver (a syntax check in front of it): names the check does not like but that exist (a label starting with a digit, an underscore) "
+                   "are never dialled although they were requested like any other", path=None if ok else render_path(rb, p)[:12])
 
 
 def run(ctx):
@@ -493,6 +507,8 @@ def run(ctx):
     from . import C16 as _C16d
     _C16d.r3_reads(ctx)              # the SOCKS5 greeting is consumed exactly (NMETHODS bytes): what follows it — the request naming the destination — is not swallowed
     C17.r3b_scan_window(ctx)         # the head of an HTTP request is recognised wherever the reads cut it, so that its destination is extracted at all
+    from . import C01 as _C01f
+    _C01f.r17_fill_loops_write_at_the_cursor(ctx)   # the address bytes are assembled in order even when a frame boundary falls inside the address, the name or the port
     r1_port_dependence(ctx)
     r2_byte_order(ctx)
     r3_atyp_tables(ctx)
